@@ -230,6 +230,52 @@ def run(R):
                                     "search": pas, "replace": flat, "after": repr(ad.get(probe))[:100]})
             elif rc == 0 and (d + pas + ".txt") in ad:
                 out["fail"].append({"why": "case-only rename reported success but did not rename", "tree": cli.tree_json(tree), "search": pas, "replace": flat})
+    # a destination that becomes occupied BETWEEN plan and apply (the planner could not see it): ordinary names and names that
+    # differ from the source only in case (on a case-sensitive file system those are two different entries)
+    for j in range(6 if R.tier == "quick" else 60):
+        a, b = g.term_pair()
+        flat, snake, pas_flat, pas = "".join(a[:2]), "_".join(a[:2]), "".join(a[:2]).capitalize(), gen.render(a[:2], "Pascal")
+        caseonly = j % 3 != 2
+        if caseonly:
+            search, replace, src_f, dst_f, src_d, dst_d = flat, snake, f"src/{pas_flat}.rs", f"src/{pas}.rs", f"src/{pas_flat}_dir", f"src/{pas}_dir"
+        else:
+            s2, n2 = gen.render(a, "Snake"), gen.render(b, "Snake")
+            search, replace, src_f, dst_f, src_d, dst_d = s2, n2, f"src/{s2}.rs", f"src/{n2}.rs", f"src/{s2}_dir", f"src/{n2}_dir"
+        tree = [{"p": "src", "k": "d", "m": 0o755}, {"p": src_f, "k": "f", "c": (f"// {search}\nbody\n").encode(), "m": 0o644},
+                {"p": src_d, "k": "d", "m": 0o755}, {"p": src_d + "/mod.rs", "k": "f", "c": b"// plain\n", "m": 0o644},
+                {"p": "notes.txt", "k": "f", "c": (f"about {search}\n").encode(), "m": 0o644}]
+        sr = H.ask({"op": "scan_tree", "tree": cli.tree_json(tree), "search": core.hx(search), "replace": core.hx(replace)})
+        variant = (j // 3) % 3
+        want_src = src_d if variant == 1 else src_f
+        target = next((r for r in (sr.get("plan") or {}).get("paths", []) if r["path"] == want_src and r.get("new_path")), None) if sr.get("ok") else None
+        if target is None or (caseonly and target["new_path"].lower() != target["path"].lower()):
+            out["kinds"]["late_occupant_not_planned"] = out["kinds"].get("late_occupant_not_planned", 0) + 1
+            continue
+        dst = target["new_path"]
+        late = [[{"p": dst, "k": "f", "c": b"late occupant, precious\n", "m": 0o600}],
+                [{"p": dst, "k": "d", "m": 0o755}, {"p": dst + "/keep.txt", "k": "f", "c": b"keep me\n", "m": 0o644}],
+                [{"p": dst, "k": "l", "t": "notes.txt"}]][variant]
+        t2 = tree + late
+        tj2 = cli.tree_json(t2)
+        ar = H.ask({"op": "apply_tree", "tree": tj2, "plan": sr["plan"]})
+        R.case(("late_occupant", search, replace, late[0]["p"], late[0]["k"]), nontrivial=True)
+        kname = "late_occupant_case_only" if caseonly else "late_occupant"
+        out["kinds"][kname] = out["kinds"].get(kname, 0) + 1
+        out["occupied_cases"] += 1
+        if "tree" not in ar:
+            out["fail"].append({"why": "apply_tree crashed", "resp": ar, "tree": tj2, "search": search, "replace": replace})
+            continue
+        before2, after2 = al.tree_dict(t2), al.harness_tree_dict(ar["tree"])
+        if ar.get("ok") or after2 != before2:
+            out["fail"].append({"why": f"'{late[0]['p']}' appeared between plan and apply at a planned destination" + (" (it differs from the source "
+                                       "only in case)" if caseonly else "") + ": apply was not refused with the tree untouched",
+                                "apply_ok": ar.get("ok"), "msg": ar.get("msg", "")[:200], "diff": repr(al.diff_dict(after2, before2))[:800],
+                                "tree": tj2, "search": search, "replace": replace, "plan": sr["plan"]})
+            continue
+        m = M.ask("apply_core", "none", al.aplan_sx(sr["plan"]), al.fs_sx(t2))
+        if isinstance(m, list) and m[0] in ("true", "false"):
+            if m[0] == "true" or al.user_only(al.fs_from_sx(m[2])) != after2:
+                out["dis"].append({"why": "model apply_core differs from apply_plan on a late occupant", "model_ok": m[0], "tree": tj2, "plan": sr["plan"]})
     R.coverage["cli_runs_succeeded"] = cli_ok
     H.close()
     M.close()
